@@ -147,3 +147,42 @@ func c09SanitizeKeepsVersions(r *core.Run) {
 	}
 	r.Floor(rule, cnt, 1)
 }
+
+// c09RelativeExpiryFromNow: a relative expiry (EX, PX, the request timeout) becomes the
+// stored deadline by adding it to the current time at the moment the write is applied.
+// Measuring it from a time stamp taken earlier (the env's creation time, say) shortens the
+// lifetime by however long the request waited — a lock granted after a wait is released
+// before its timeout, or is stored already expired while its caller holds a token.
+func c09RelativeExpiryFromNow(r *core.Run) {
+	const rule = "relative-expiry-from-now"
+	fn := r.Need(rule, dmapPkg+".prepareTTL")
+	if fn == nil {
+		return
+	}
+	cnt := 0
+	n := counter{}
+	core.Instrs(fn.SSA, func(in ssa.Instruction) {
+		bin, ok := in.(*ssa.BinOp)
+		if !ok || bin.Op != token.ADD {
+			return
+		}
+		isDur := func(v ssa.Value) bool {
+			c, isCall := core.StripConv(v).(*ssa.Call)
+			return isCall && methodName(c) == "Nanoseconds"
+		}
+		var other ssa.Value
+		switch {
+		case isDur(bin.X):
+			other = bin.Y
+		case isDur(bin.Y):
+			other = bin.X
+		default:
+			return
+		}
+		cnt++
+		r.Check(derivesFromNow(other), rule, n.next(fn.Name+" relative deadline"), site(r, instrPos(bin)),
+			"the duration is added to time.Now()",
+			"a relative expiry is added to something other than the current time (a time stamp taken when the request was created): the key's lifetime is shortened by the time the request waited — a lock acquired after a wait is released early or is born expired")
+	})
+	r.Floor(rule, cnt, 2)
+}
